@@ -4,7 +4,7 @@ Helper lemmas are in Proofs/C04*.  Every theorem is about Model/C04 (host) and S
 constants, formats, slice lengths and reply-routing mechanism are regenerated from /repo (Gen/C04).
 `S2F` is CPython's `float(str)` (only reached when a *string* is passed for a float-typed parameter).
 -/
-import CfVerif.Proofs.C04
+import CfVerif.Proofs.C04Inv
 namespace CfVerif.C04
 open CfVerif
 
@@ -91,6 +91,103 @@ theorem set_value_raise_unchanged (h : Host) (cn : List Nat) (x : PyVal) (inCb :
   · split at hr
     · cases hr; simp only [List.mem_singleton, Out.raised.injEq] at hmem; subst hmem; exact ⟨rfl, rfl⟩
     · cases hr; simp at hmem
+
+/-! ## Clause 3: one request at a time, in issue order, each answered before the next is sent -/
+
+theorem code_variant : Variant.code = { routing := 1, snap := true } := by
+  simp only [Variant.code, gen_misc_routing.1, gen_misc_routing.2.1]
+
+/-- The closed system: real `Param` code (model) + device + packets in flight, started with nothing queued or outstanding.
+For EVERY event list - API calls from any number of threads (`Ev.api thread call`), the two steps of the updater thread,
+deliveries by the incoming-packet thread after arbitrary delays, firmware-side value changes with or without
+notification, in any interleaving:
+1. the requests transmitted so far, followed by the one the updater holds and the queue, are exactly the requests issued,
+   in issue order (nothing lost, duplicated or reordered);
+2. transmissions and lock releases alternate, starting with a transmission, and each release happens while handling a
+   packet that answers the outstanding request: request n+1 is sent only after the reply to request n was delivered;
+3. the k-th reply delivered answers the k-th request transmitted (unsolicited notifications never count as replies). -/
+theorem one_outstanding_fifo (s0 : Sys) (h0 : s0.Idle) (evs : List Ev) (s : Sys) (outs : List Out)
+    (hrun : Sys.run S2F Variant.code s0 evs = some (s, outs)) :
+    txsOf outs ++ s.host.cur.toList ++ s.host.queue = (enqsOf outs).map Prod.fst ∧
+    (altRun s0.dev.v2 none (obsOf outs)).isSome = true ∧
+    answersZip s0.dev.v2 (txsOf outs) (solicited (rxdsOf outs)) = true := by
+  obtain ⟨hi0, _⟩ := Inv.init h0
+  rw [code_variant] at hrun
+  obtain ⟨A, G, W, hi, _⟩ := run_inv S2F _ rfl rfl evs s0 [] [] [] [] hi0 s outs hrun
+  simp only [List.nil_append] at hi
+  refine ⟨?_, ?_, hi.ans⟩
+  · rw [hi.enq, List.map_append, hi.gq, hi.txs]; simp
+  · obtain ⟨st, h1, _⟩ := hi.alt
+    rw [h1]; rfl
+
+/-! ## Clause 4: attribution of replies -/
+
+/-- Every persistent-store/clear/get-state/default-value reply is handed exactly once to the handler registered by the
+request it answers, and to no other: the caller callbacks invoked during a run are exactly what the handler of the k-th
+issued request does with the k-th delivered reply (k = 1, 2, ...; requests without handler - reads, writes, store/clear
+without callback - consume their reply silently), in that order, and nothing else.  By `one_outstanding_fifo` the k-th
+delivered reply is the device's answer to the k-th issued request.
+
+PARTIAL: holds under `DistinctAlong` - in every visited state the registered reply callbacks and the callback-less
+unanswered misc requests have pairwise distinct (command, parameter).  Without it the statement is false for the
+repaired code (`reply_attribution_duplicates_counterexample`, finding D5b). The full statement is the same without `hd`. -/
+theorem reply_attribution_partial (s0 : Sys) (h0 : s0.Idle) (evs : List Ev) (s : Sys) (outs : List Out)
+    (hrun : Sys.run S2F Variant.code s0 evs = some (s, outs)) (hd : DistinctAlong S2F Variant.code s0 [] evs) :
+    miscCallsOf outs = expectedMisc (enqsOf outs) (solicited (rxdsOf outs)) := by
+  obtain ⟨hi0, ha0⟩ := Inv.init h0
+  rw [code_variant] at hrun hd
+  obtain ⟨A, G, W, hi, ha⟩ := run_inv S2F _ rfl rfl evs s0 [] [] [] [] hi0 s outs hrun
+  simp only [List.nil_append] at hi ha
+  rw [(ha ha0 hd).misc, hi.enq, expectedMisc_append_unmatched A G _ hi.rx]
+
+/-! ## The code before the fix (D5) and what remains after it (D5b) -/
+
+def noS2F : List Char → Except PyErr Nat := fun _ => .error .other
+/-- three persistent `uint8_t` parameters with defaults 10, 20, 30 -/
+def cxDev : Dev := { v2 := true, params := [⟨8, [1], false, true, [10], none⟩, ⟨8, [2], false, true, [20], none⟩, ⟨8, [3], false, true, [30], none⟩] }
+def cxToc : List Elem := [⟨0, 1, 0, 8, false, true⟩, ⟨1, 1, 1, 8, false, true⟩, ⟨2, 1, 2, 8, false, true⟩]
+def cxSys : Sys := { host := { Host.init cxToc true with updV2 := true, initialized := true, isUpdated := true }, dev := cxDev, down := [] }
+/-- one request goes out, is answered and the answer is delivered -/
+def pump : List Ev := [.updGet, .updSend, .deliver]
+
+example : cxSys.Idle := ⟨rfl, rfl, rfl, rfl, rfl, rfl, rfl, rfl⟩
+
+/-- what the callers' callbacks are told during a run -/
+def miscRun (v : Variant) (evs : List Ev) : Option (List Out) := (Sys.run noS2F v cxSys evs).map fun r => miscCallsOf r.2
+/-- ... and what they must be told -/
+def miscSpec (v : Variant) (evs : List Ev) : Option (List Out) :=
+  (Sys.run noS2F v cxSys evs).map fun r => expectedMisc (enqsOf r.2) (solicited (rxdsOf r.2))
+
+def threeDefaults : List Ev :=
+  [.api 0 (.getDefault [1, 0] 100), .api 0 (.getDefault [1, 1] 101), .api 0 (.getDefault [1, 2] 102)] ++ pump ++ pump ++ pump
+
+/-- D5, the code before the fix (callbacks match the command byte only; live-list dispatch): with three default-value
+queries outstanding the third caller is told the default of the FIRST parameter (10 instead of 30) -/
+theorem reply_attribution_counterexample :
+    miscRun { routing := 0, snap := false } threeDefaults =
+      some [.misc 100 [1, 0] (.dflt (some (.int 10))), .misc 102 [1, 2] (.dflt (some (.int 10))), .misc 101 [1, 1] (.dflt (some (.int 20)))] ∧
+    miscSpec { routing := 0, snap := false } threeDefaults =
+      some [.misc 100 [1, 0] (.dflt (some (.int 10))), .misc 101 [1, 1] (.dflt (some (.int 20))), .misc 102 [1, 2] (.dflt (some (.int 30)))] := by
+  decide +kernel
+
+/-- the repaired code attributes them correctly -/
+example : miscRun Variant.code threeDefaults = miscSpec Variant.code threeDefaults ∧
+    distinctAlongB noS2F Variant.code cxSys [] threeDefaults = true := by decide +kernel
+
+def stateStoreState : List Ev :=
+  [.api 0 (.getState [1, 0] 100), .api 1 (.store [1, 0] (some 101)), .api 0 (.getState [1, 0] 102)] ++ pump ++ pump ++ pump
+
+/-- D5b, the repaired code without the side condition: `persistent_get_state(p); persistent_store(p); persistent_get_state(p)`
+issued together - both state callbacks fire on the first reply ("not stored"), the last reply reaches nobody -/
+theorem reply_attribution_duplicates_counterexample :
+    miscRun Variant.code stateStoreState =
+      some [.misc 100 [1, 0] (.state (some (false, .int 10, none))), .misc 102 [1, 0] (.state (some (false, .int 10, none))),
+            .misc 101 [1, 0] (.status true)] ∧
+    miscSpec Variant.code stateStoreState =
+      some [.misc 100 [1, 0] (.state (some (false, .int 10, none))), .misc 101 [1, 0] (.status true),
+            .misc 102 [1, 0] (.state (some (true, .int 10, some (.int 1))))] ∧
+    distinctAlongB noS2F Variant.code cxSys [] stateStoreState = false := by
+  decide +kernel
 
 /-! ## Non-vacuity -/
 
